@@ -101,7 +101,7 @@ fn ostats_map(o: &OStats) -> BTreeMap<String, u64> {
         ingest_filtered_own, ingest_filtered_foreign, known_exact, known_exact_nonempty, known_safety_only,
         known_with_expired_entries, discovered_judged, discovered_skipped, dumps_judged, dump_entries,
         dumps_with_expired, c16_instances, c16_dump_checks, probes_sent, probes_answered, probes_excluded,
-        api_probes, resolver_probes, panics_seen, refresh_queries, truncated_accepted);
+        api_probes, resolver_probes, panics_seen, refresh_queries, truncated_accepted, announcements_judged);
     m
 }
 
@@ -109,7 +109,7 @@ fn nontrivial(prop: &str, o: &OStats) -> bool {
     match prop {
         "C13" => o.queries_judged > 0,
         "C14" => o.windows > 0,
-        "C15" => o.known_exact_nonempty > 0 || o.discovered_judged > 0,
+        "C15" => o.known_exact_nonempty > 0 || o.discovered_judged > 0 || o.announcements_judged > 0,
         "C16" => o.c16_instances > 0 || (o.c16_dump_checks > 0 && o.dump_entries > 0),
         _ => o.dumps_judged > 0 && o.dump_entries > 0,
     }
